@@ -1,17 +1,937 @@
 //go:build verif
 
+// C03 — ML-KEM computes the functions of FIPS 203, Kyber those of round 3.
+//
+// Black-box part: byte equality of ek, dk, ct, K, Decaps(c) and of the K-PKE
+// layer with the independent reference zz_verif/ref/mlkem; key parsing.
 package c03
 
 import (
+	"bytes"
+	"fmt"
 	"testing"
-	"time"
 
+	"github.com/cloudflare/circl/kem"
+	kyber1024 "github.com/cloudflare/circl/kem/kyber/kyber1024"
+	kyber512 "github.com/cloudflare/circl/kem/kyber/kyber512"
+	kyber768 "github.com/cloudflare/circl/kem/kyber/kyber768"
+	mlkem1024 "github.com/cloudflare/circl/kem/mlkem/mlkem1024"
+	mlkem512 "github.com/cloudflare/circl/kem/mlkem/mlkem512"
+	mlkem768 "github.com/cloudflare/circl/kem/mlkem/mlkem768"
+	pke1024 "github.com/cloudflare/circl/pke/kyber/kyber1024"
+	pke512 "github.com/cloudflare/circl/pke/kyber/kyber512"
+	pke768 "github.com/cloudflare/circl/pke/kyber/kyber768"
 	"github.com/cloudflare/circl/zz_verif/ref/mlkem"
 	"github.com/cloudflare/circl/zz_verif/vlib"
+	"pgregory.net/rapid"
 )
 
-func TestSelf(t *testing.T) {
-	t0 := time.Now()
-	info, err := mlkem.SelfTest(vlib.Harness+"/zz_verif/c03/testdata/acvp_mlkem_subset.json.gz", true)
-	t.Log(info, err, time.Since(t0))
+// ---------------------------------------------------------------------------
+// oracle self-test
+
+var acvpPath = vlib.Harness + "/zz_verif/c03/testdata/acvp_mlkem_subset.json.gz"
+
+func selfTest(t *testing.T) bool {
+	info, err := mlkem.SelfTest(acvpPath, true)
+	if err != nil {
+		vlib.Selftest("ref/mlkem", "FAIL: "+err.Error())
+		t.Fatalf("SELFTEST-FAIL ref/mlkem: %v", err)
+		return false
+	}
+	vlib.Selftest("ref/mlkem", "ok: "+info)
+	return true
+}
+
+func TestC03SelfTest(t *testing.T) {
+	defer vlib.Done()
+	selfTest(t)
+}
+
+// ---------------------------------------------------------------------------
+// adaptors for the six KEM packages (direct, typed API) and three PKE packages
+
+type pubKey interface {
+	Pack([]byte)
+	EncapsulateTo(ct, ss, seed []byte)
+}
+
+type privKey interface {
+	Pack([]byte)
+	DecapsulateTo(ss, ct []byte)
+}
+
+type impl struct {
+	name     string
+	ref      *mlkem.Params
+	sch      kem.Scheme
+	mlkem    bool
+	newKey   func(seed []byte) (pubKey, privKey)
+	unpackPK func([]byte) (pubKey, error) // direct PublicKey.Unpack
+	unpackSK func([]byte) (privKey, error)
+}
+
+func impls() []impl {
+	return []impl{
+		{name: "ML-KEM-512", ref: mlkem.Get(2, false), sch: mlkem512.Scheme(), mlkem: true,
+			newKey:   func(s []byte) (pubKey, privKey) { a, b := mlkem512.NewKeyFromSeed(s); return a, b },
+			unpackPK: func(b []byte) (pubKey, error) { var k mlkem512.PublicKey; err := k.Unpack(b); return &k, err },
+			unpackSK: func(b []byte) (privKey, error) { var k mlkem512.PrivateKey; err := k.Unpack(b); return &k, err }},
+		{name: "ML-KEM-768", ref: mlkem.Get(3, false), sch: mlkem768.Scheme(), mlkem: true,
+			newKey:   func(s []byte) (pubKey, privKey) { a, b := mlkem768.NewKeyFromSeed(s); return a, b },
+			unpackPK: func(b []byte) (pubKey, error) { var k mlkem768.PublicKey; err := k.Unpack(b); return &k, err },
+			unpackSK: func(b []byte) (privKey, error) { var k mlkem768.PrivateKey; err := k.Unpack(b); return &k, err }},
+		{name: "ML-KEM-1024", ref: mlkem.Get(4, false), sch: mlkem1024.Scheme(), mlkem: true,
+			newKey:   func(s []byte) (pubKey, privKey) { a, b := mlkem1024.NewKeyFromSeed(s); return a, b },
+			unpackPK: func(b []byte) (pubKey, error) { var k mlkem1024.PublicKey; err := k.Unpack(b); return &k, err },
+			unpackSK: func(b []byte) (privKey, error) { var k mlkem1024.PrivateKey; err := k.Unpack(b); return &k, err }},
+		{name: "Kyber512", ref: mlkem.Get(2, true), sch: kyber512.Scheme(),
+			newKey:   func(s []byte) (pubKey, privKey) { a, b := kyber512.NewKeyFromSeed(s); return a, b },
+			unpackPK: func(b []byte) (pubKey, error) { var k kyber512.PublicKey; k.Unpack(b); return &k, nil },
+			unpackSK: func(b []byte) (privKey, error) { var k kyber512.PrivateKey; k.Unpack(b); return &k, nil }},
+		{name: "Kyber768", ref: mlkem.Get(3, true), sch: kyber768.Scheme(),
+			newKey:   func(s []byte) (pubKey, privKey) { a, b := kyber768.NewKeyFromSeed(s); return a, b },
+			unpackPK: func(b []byte) (pubKey, error) { var k kyber768.PublicKey; k.Unpack(b); return &k, nil },
+			unpackSK: func(b []byte) (privKey, error) { var k kyber768.PrivateKey; k.Unpack(b); return &k, nil }},
+		{name: "Kyber1024", ref: mlkem.Get(4, true), sch: kyber1024.Scheme(),
+			newKey:   func(s []byte) (pubKey, privKey) { a, b := kyber1024.NewKeyFromSeed(s); return a, b },
+			unpackPK: func(b []byte) (pubKey, error) { var k kyber1024.PublicKey; k.Unpack(b); return &k, nil },
+			unpackSK: func(b []byte) (privKey, error) { var k kyber1024.PrivateKey; k.Unpack(b); return &k, nil }},
+	}
+}
+
+type pkePub interface {
+	Pack([]byte)
+	EncryptTo(ct, pt, seed []byte)
+}
+
+type pkePriv interface {
+	Pack([]byte)
+	DecryptTo(pt, ct []byte)
+}
+
+type pkeImpl struct {
+	name        string
+	k           int
+	newKey      func(seed []byte) (pkePub, pkePriv)
+	newKeyMLKEM func(seed []byte) (pkePub, pkePriv)
+	unpackPK    func([]byte) pkePub
+	unpackPKML  func([]byte) (pkePub, error)
+	unpackSK    func([]byte) pkePriv
+}
+
+func pkeImpls() []pkeImpl {
+	return []pkeImpl{
+		{name: "pke/kyber512", k: 2,
+			newKey:      func(s []byte) (pkePub, pkePriv) { a, b := pke512.NewKeyFromSeed(s); return a, b },
+			newKeyMLKEM: func(s []byte) (pkePub, pkePriv) { a, b := pke512.NewKeyFromSeedMLKEM(s); return a, b },
+			unpackPK:    func(b []byte) pkePub { var k pke512.PublicKey; k.Unpack(b); return &k },
+			unpackPKML:  func(b []byte) (pkePub, error) { var k pke512.PublicKey; err := k.UnpackMLKEM(b); return &k, err },
+			unpackSK:    func(b []byte) pkePriv { var k pke512.PrivateKey; k.Unpack(b); return &k }},
+		{name: "pke/kyber768", k: 3,
+			newKey:      func(s []byte) (pkePub, pkePriv) { a, b := pke768.NewKeyFromSeed(s); return a, b },
+			newKeyMLKEM: func(s []byte) (pkePub, pkePriv) { a, b := pke768.NewKeyFromSeedMLKEM(s); return a, b },
+			unpackPK:    func(b []byte) pkePub { var k pke768.PublicKey; k.Unpack(b); return &k },
+			unpackPKML:  func(b []byte) (pkePub, error) { var k pke768.PublicKey; err := k.UnpackMLKEM(b); return &k, err },
+			unpackSK:    func(b []byte) pkePriv { var k pke768.PrivateKey; k.Unpack(b); return &k }},
+		{name: "pke/kyber1024", k: 4,
+			newKey:      func(s []byte) (pkePub, pkePriv) { a, b := pke1024.NewKeyFromSeed(s); return a, b },
+			newKeyMLKEM: func(s []byte) (pkePub, pkePriv) { a, b := pke1024.NewKeyFromSeedMLKEM(s); return a, b },
+			unpackPK:    func(b []byte) pkePub { var k pke1024.PublicKey; k.Unpack(b); return &k },
+			unpackPKML:  func(b []byte) (pkePub, error) { var k pke1024.PublicKey; err := k.UnpackMLKEM(b); return &k, err },
+			unpackSK:    func(b []byte) pkePriv { var k pke1024.PrivateKey; k.Unpack(b); return &k }},
+	}
+}
+
+// ---------------------------------------------------------------------------
+// ciphertext generators
+
+// boundaryFields lists d-bit field values at the edges of the field and around
+// the values whose decompression sits at the rounding boundaries of
+// Compress_1 (q/4 and 3q/4) and at q/2.
+func boundaryFields(d int) []int {
+	max := 1<<uint(d) - 1
+	set := map[int]bool{0: true, 1: true, max: true, max - 1: true, 1 << uint(d-1): true, 1<<uint(d-1) - 1: true, 1<<uint(d-1) + 1: true}
+	for _, t := range []int{832, 833, 1664, 1665, 2496, 2497} {
+		c := mlkem.Compress(d, t)
+		for _, dd := range []int{-1, 0, 1} {
+			set[(c+dd+max+1)%(max+1)] = true
+		}
+	}
+	var out []int
+	for v := 0; v <= max; v++ {
+		if set[v] {
+			out = append(out, v)
+		}
+	}
+	return out
+}
+
+func encodeCt(p *mlkem.Params, u []*mlkem.Poly, v *mlkem.Poly) []byte {
+	var c []byte
+	for i := 0; i < p.K; i++ {
+		c = append(c, mlkem.ByteEncode(p.Du, u[i])...)
+	}
+	return append(c, mlkem.ByteEncode(p.Dv, v)...)
+}
+
+func decodeCt(p *mlkem.Params, c []byte) ([]*mlkem.Poly, *mlkem.Poly) {
+	u := make([]*mlkem.Poly, p.K)
+	for i := 0; i < p.K; i++ {
+		u[i] = mlkem.ByteDecodeRaw(p.Du, c[32*p.Du*i:32*p.Du*(i+1)])
+	}
+	return u, mlkem.ByteDecodeRaw(p.Dv, c[32*p.Du*p.K:])
+}
+
+var ctKinds = []string{"bitflip", "bitflip", "random", "boundary-const", "boundary-mixed", "honest-u/boundary-v", "boundary-u/honest-v", "one-field", "targeted", "u-zero/v-any"}
+
+// altCiphertext derives a non-honest ciphertext of the given kind from an
+// honest one. dkPKE (the K-PKE decryption key bytes) is used by the
+// "targeted" kind only, to steer v - s.u onto the rounding boundaries.
+func altCiphertext(t *rapid.T, p *mlkem.Params, kind string, honest, dkPKE []byte) ([]byte, string) {
+	bu, bv := boundaryFields(p.Du), boundaryFields(p.Dv)
+	rnd := make([]byte, 8*256*(p.K+1))
+	pick := func(set []int, idx int) int {
+		x := int(rnd[2*idx])<<8 | int(rnd[2*idx+1])
+		return set[x%len(set)]
+	}
+	switch kind {
+	case "bitflip":
+		i := rapid.IntRange(0, 8*len(honest)-1).Draw(t, "bit")
+		c := append([]byte{}, honest...)
+		c[i/8] ^= 1 << uint(i%8)
+		return c, fmt.Sprintf("bitflip@%d", i)
+	case "random":
+		c := make([]byte, len(honest))
+		vlib.FillRandom(t, c, "ct")
+		return c, "random"
+	case "boundary-const":
+		a := rapid.SampledFrom(bu).Draw(t, "ufield")
+		b := rapid.SampledFrom(bv).Draw(t, "vfield")
+		u := make([]*mlkem.Poly, p.K)
+		for i := range u {
+			u[i] = new(mlkem.Poly)
+			for j := range u[i] {
+				u[i][j] = a
+			}
+		}
+		var v mlkem.Poly
+		for j := range v {
+			v[j] = b
+		}
+		return encodeCt(p, u, &v), fmt.Sprintf("boundary-const u=%d v=%d", a, b)
+	case "boundary-mixed", "honest-u/boundary-v", "boundary-u/honest-v":
+		vlib.FillRandom(t, rnd, "pick")
+		u, v := decodeCt(p, honest)
+		if kind != "honest-u/boundary-v" {
+			for i := range u {
+				for j := range u[i] {
+					u[i][j] = pick(bu, 256*i+j)
+				}
+			}
+		}
+		if kind != "boundary-u/honest-v" {
+			for j := range v {
+				v[j] = pick(bv, 256*p.K+j)
+			}
+		}
+		return encodeCt(p, u, v), kind
+	case "one-field":
+		u, v := decodeCt(p, honest)
+		pos := rapid.IntRange(0, 256*(p.K+1)-1).Draw(t, "pos")
+		var val int
+		if pos < 256*p.K {
+			val = rapid.SampledFrom(bu).Draw(t, "val")
+			u[pos/256][pos%256] = val
+		} else {
+			val = rapid.SampledFrom(bv).Draw(t, "val")
+			v[pos%256] = val
+		}
+		return encodeCt(p, u, v), fmt.Sprintf("one-field@%d=%d", pos, val)
+	case "u-zero/v-any":
+		vlib.FillRandom(t, rnd, "pick")
+		u := make([]*mlkem.Poly, p.K)
+		for i := range u {
+			u[i] = new(mlkem.Poly)
+		}
+		var v mlkem.Poly
+		for j := range v {
+			v[j] = int(rnd[j]) % (1 << uint(p.Dv))
+		}
+		return encodeCt(p, u, &v), kind
+	case "targeted":
+		// u = a.X^j in slot s, all other slots zero; then <s,u> = a.X^j.s_s and each
+		// v field is chosen so that w_i = Decompress(v_i) - (a.X^j.s_s)_i comes as close
+		// as possible to one of the Compress_1 boundaries 832|833, 2496|2497.
+		vlib.FillRandom(t, rnd, "pick")
+		slot := rapid.IntRange(0, p.K-1).Draw(t, "slot")
+		j := rapid.IntRange(0, 255).Draw(t, "shift")
+		ay := rapid.IntRange(1, 1<<uint(p.Du)-1).Draw(t, "afield")
+		a := mlkem.Decompress(p.Du, ay)
+		sPoly := mlkem.InvNTT(mlkem.ByteDecode(12, dkPKE[384*slot:384*slot+384]))
+		var mono mlkem.Poly
+		mono[j] = a
+		prod := mlkem.MulSchoolbook(&mono, sPoly)
+		u := make([]*mlkem.Poly, p.K)
+		for i := range u {
+			u[i] = new(mlkem.Poly)
+		}
+		u[slot][j] = ay
+		targets := []int{832, 833, 2496, 2497}
+		var v mlkem.Poly
+		for i := range v {
+			tg := targets[int(rnd[i])%4]
+			best, bestD := 0, 1<<30
+			for y := 0; y < 1<<uint(p.Dv); y++ {
+				w := ((mlkem.Decompress(p.Dv, y)-prod[i]-tg)%mlkem.Q + mlkem.Q) % mlkem.Q
+				if w > mlkem.Q/2 {
+					w = mlkem.Q - w
+				}
+				if w < bestD {
+					best, bestD = y, w
+				}
+			}
+			v[i] = best
+		}
+		return encodeCt(p, u, &v), fmt.Sprintf("targeted slot=%d shift=%d a=%d", slot, j, ay)
+	}
+	panic("unknown kind " + kind)
+}
+
+// boundaryHits counts the coefficients of w = v - <s,u> (the polynomial K-PKE
+// decryption rounds) that sit exactly on one of 832, 833, 2496, 2497.
+func boundaryHits(p *mlkem.Params, dkPKE, c []byte) int {
+	var acc mlkem.Poly
+	a := &acc
+	for i := 0; i < p.K; i++ {
+		uf := mlkem.ByteDecodeRaw(p.Du, c[32*p.Du*i:32*p.Du*(i+1)])
+		var u mlkem.Poly
+		for j := range u {
+			u[j] = mlkem.Decompress(p.Du, uf[j])
+		}
+		a = mlkem.Add(a, mlkem.MultiplyNTTs(mlkem.ByteDecode(12, dkPKE[384*i:384*i+384]), mlkem.NTT(&u)))
+	}
+	vf := mlkem.ByteDecodeRaw(p.Dv, c[32*p.Du*p.K:])
+	var v mlkem.Poly
+	for j := range v {
+		v[j] = mlkem.Decompress(p.Dv, vf[j])
+	}
+	w := mlkem.Sub(&v, mlkem.InvNTT(a))
+	n := 0
+	for _, x := range w {
+		if x == 832 || x == 833 || x == 2496 || x == 2497 {
+			n++
+		}
+	}
+	return n
+}
+
+func hitClass(n int) string {
+	switch {
+	case n == 0:
+		return "w-on-rounding-boundary=0"
+	case n < 8:
+		return "w-on-rounding-boundary=1..7"
+	default:
+		return "w-on-rounding-boundary>=8"
+	}
+}
+
+// ---------------------------------------------------------------------------
+// KEM level
+
+func catchRep(t vlib.TB, key, what string, f func()) bool {
+	if p, st := vlib.Catch(f); p != nil {
+		vlib.Report(t, key+"/"+vlib.PanicClass(p), fmt.Sprintf("%s: panic %v\n%s", what, p, st))
+		return false
+	}
+	return true
+}
+
+func TestC03KEM(t *testing.T) {
+	defer vlib.Done()
+	if !selfTest(t) {
+		return
+	}
+	for _, im := range impls() {
+		im := im
+		t.Run(im.name, func(t *testing.T) {
+			vlib.Check(t, vlib.N(100, 350), func(t *rapid.T) { kemCase(t, im) })
+		})
+	}
+}
+
+func kemCase(t *rapid.T, im impl) {
+	p := im.ref
+	sub := "kem/" + im.name
+	seed := vlib.EdgeBytes(t, 64, "dz")
+	m := vlib.EdgeBytes(t, 32, "m")
+	vlib.Eval(sub)
+
+	// --- key generation
+	wantEk, wantDk := p.KeyGen(seed[:32], seed[32:])
+	var ek, dk, ek2, dk2 []byte
+	var pk kem.PublicKey
+	var sk kem.PrivateKey
+	var dpk pubKey
+	var dsk privKey
+	if !catchRep(t, "C03/panic/"+im.name+"/keygen", fmt.Sprintf("seed %x", seed), func() {
+		pk, sk = im.sch.DeriveKeyPair(seed)
+		ek, _ = pk.MarshalBinary()
+		dk, _ = sk.MarshalBinary()
+		dpk, dsk = im.newKey(seed)
+		ek2 = make([]byte, p.EkSize())
+		dk2 = make([]byte, p.DkSize())
+		dpk.Pack(ek2)
+		dsk.Pack(dk2)
+	}) {
+		return
+	}
+	if !bytes.Equal(ek, wantEk) || !bytes.Equal(ek2, wantEk) {
+		vlib.Report(t, "C03/keygen/"+im.name+"/ek", fmt.Sprintf("seed %x: ek differs from the reference\n circl %s\n ref   %s", seed, vlib.Hex(ek), vlib.Hex(wantEk)))
+		return
+	}
+	if !bytes.Equal(dk, wantDk) || !bytes.Equal(dk2, wantDk) {
+		vlib.Report(t, "C03/keygen/"+im.name+"/dk", fmt.Sprintf("seed %x: dk differs from the reference (first differing byte %d)", seed, firstDiff(dk, wantDk)))
+		return
+	}
+
+	// --- encapsulation, with the generated key object and with a key parsed from bytes
+	wantK, wantC := p.Encaps(wantEk, m)
+	var ct, ss []byte
+	ct2 := make([]byte, p.CtSize())
+	ss2 := make([]byte, 32)
+	var upk pubKey
+	var usk privKey
+	var uerr, uerr2 error
+	if !catchRep(t, "C03/panic/"+im.name+"/encaps", fmt.Sprintf("seed %x m %x", seed, m), func() {
+		ct, ss, _ = im.sch.EncapsulateDeterministically(pk, m)
+		upk, uerr = im.unpackPK(wantEk)
+		usk, uerr2 = im.unpackSK(wantDk)
+		if uerr == nil {
+			upk.EncapsulateTo(ct2, ss2, m)
+		}
+	}) {
+		return
+	}
+	if uerr != nil || uerr2 != nil {
+		vlib.Report(t, "C03/parse/"+im.name+"/wellformed-refused", fmt.Sprintf("seed %x: Unpack of a generated key: pk err=%v sk err=%v", seed, uerr, uerr2))
+		return
+	}
+	if !bytes.Equal(ct, wantC) || !bytes.Equal(ct2, wantC) {
+		vlib.Report(t, "C03/encaps/"+im.name+"/ct", fmt.Sprintf("seed %x m %x: ciphertext differs from the reference (generated-key path equal=%v, unpacked-key path equal=%v, first differing byte %d)", seed, m, bytes.Equal(ct, wantC), bytes.Equal(ct2, wantC), firstDiff(ct, wantC)))
+		return
+	}
+	if !bytes.Equal(ss, wantK) || !bytes.Equal(ss2, wantK) {
+		vlib.Report(t, "C03/encaps/"+im.name+"/K", fmt.Sprintf("seed %x m %x: shared secret %x / %x, reference %x", seed, m, ss, ss2, wantK))
+		return
+	}
+
+	// --- decapsulation: honest, then altered ciphertexts
+	type cand struct {
+		c    []byte
+		kind string
+		desc string
+	}
+	cands := []cand{{wantC, "honest", "honest"}}
+	nAlt := 2
+	for i := 0; i < nAlt; i++ {
+		kind := rapid.SampledFrom(append([]string{"other-honest"}, ctKinds...)).Draw(t, "ctkind")
+		if kind == "other-honest" {
+			m2 := append([]byte{}, m...)
+			m2[rapid.IntRange(0, 31).Draw(t, "mbyte")] ^= 1 << uint(rapid.IntRange(0, 7).Draw(t, "mbit"))
+			_, c := p.Encaps(wantEk, m2)
+			cands = append(cands, cand{c, kind, fmt.Sprintf("other-honest m'=%x", m2)})
+			continue
+		}
+		c, desc := altCiphertext(t, p, kind, wantC, wantDk[:p.DkPKESize()])
+		cands = append(cands, cand{c, kind, desc})
+	}
+	for _, cd := range cands {
+		want := p.Decaps(wantDk, cd.c)
+		var g1, g2 []byte
+		g3 := make([]byte, 32)
+		if !catchRep(t, "C03/panic/"+im.name+"/decaps", fmt.Sprintf("seed %x ct %s", seed, cd.desc), func() {
+			g1, _ = im.sch.Decapsulate(sk, cd.c)
+			g2 = make([]byte, 32)
+			dsk.DecapsulateTo(g2, cd.c)
+			usk.DecapsulateTo(g3, cd.c)
+		}) {
+			return
+		}
+		if !bytes.Equal(g1, want) || !bytes.Equal(g2, want) || !bytes.Equal(g3, want) {
+			rej := p.Rejected(wantDk, cd.c)
+			vlib.Report(t, "C03/decaps/"+im.name+"/"+map[bool]string{true: "reject-branch", false: "accept-branch"}[rej],
+				fmt.Sprintf("seed %x m %x ct=%s (%s): Decaps gives %x (scheme) %x (generated key) %x (unpacked key), reference %x", seed, m, cd.desc, vlib.Hex(cd.c), g1, g2, g3, want))
+			return
+		}
+		vlib.Class(sub, "ct="+cd.kind)
+		if cd.kind != "honest" {
+			cls := "decaps=accept"
+			if p.Rejected(wantDk, cd.c) {
+				cls = "decaps=implicit-reject"
+			}
+			vlib.NonTrivial(sub, cls, seed, cd.c)
+			vlib.Sample(sub, "ct="+cd.kind, fmt.Sprintf("%s seed=%x m=%x ct: %s -> K=%x (%s)", im.name, seed, m, cd.desc, want, cls))
+		}
+	}
+}
+
+func firstDiff(a, b []byte) int {
+	for i := 0; i < len(a) && i < len(b); i++ {
+		if a[i] != b[i] {
+			return i
+		}
+	}
+	if len(a) != len(b) {
+		return min(len(a), len(b))
+	}
+	return -1
+}
+
+// ---------------------------------------------------------------------------
+// K-PKE level: here m' = Decrypt(dk, c) is visible for arbitrary c (at the KEM
+// level a non-honest c only ever shows J(z||c))
+
+func TestC03PKE(t *testing.T) {
+	defer vlib.Done()
+	if !selfTest(t) {
+		return
+	}
+	for _, im := range pkeImpls() {
+		im := im
+		t.Run(im.name, func(t *testing.T) {
+			vlib.Check(t, vlib.N(120, 400), func(t *rapid.T) { pkeCase(t, im) })
+		})
+	}
+}
+
+func pkeCase(t *rapid.T, im pkeImpl) {
+	sub := im.name
+	flavour := rapid.SampledFrom([]string{"kyber", "mlkem"}).Draw(t, "flavour")
+	p := mlkem.Get(im.k, flavour == "kyber")
+	d := vlib.EdgeBytes(t, 32, "d")
+	m := vlib.EdgeBytes(t, 32, "m")
+	r := vlib.EdgeBytes(t, 32, "r")
+	vlib.Eval(sub)
+	vlib.Class(sub, "keygen="+flavour)
+
+	wantEk, wantDk := p.PKEKeyGen(d)
+	ek := make([]byte, p.EkSize())
+	dk := make([]byte, p.DkPKESize())
+	var pk pkePub
+	var sk pkePriv
+	if !catchRep(t, "C03/panic/"+im.name+"/keygen", fmt.Sprintf("d %x", d), func() {
+		if flavour == "kyber" {
+			pk, sk = im.newKey(d)
+		} else {
+			pk, sk = im.newKeyMLKEM(d)
+		}
+		pk.Pack(ek)
+		sk.Pack(dk)
+	}) {
+		return
+	}
+	if !bytes.Equal(ek, wantEk) || !bytes.Equal(dk, wantDk) {
+		vlib.Report(t, "C03/pke-keygen/"+im.name+"/"+flavour, fmt.Sprintf("d %x: ek equal=%v dk equal=%v (first differing bytes %d / %d)", d, bytes.Equal(ek, wantEk), bytes.Equal(dk, wantDk), firstDiff(ek, wantEk), firstDiff(dk, wantDk)))
+		return
+	}
+
+	// optionally lift some coefficients of the encoded keys by q (same residue, not reduced)
+	ekIn := append([]byte{}, wantEk...)
+	dkIn := append([]byte{}, wantDk...)
+	keyForm := rapid.SampledFrom([]string{"reduced", "reduced", "ek-unreduced", "dk-unreduced"}).Draw(t, "keyform")
+	lifted := 0
+	if keyForm != "reduced" {
+		buf := ekIn
+		if keyForm == "dk-unreduced" {
+			buf = dkIn
+		}
+		lifted = liftCoefficients(t, buf[:384*im.k])
+		if lifted == 0 {
+			keyForm = "reduced"
+		}
+	}
+	vlib.Class(sub, "keyform="+keyForm)
+
+	wantC := p.PKEEncrypt(ekIn, m, r)
+	c1 := make([]byte, p.CtSize())
+	c2 := make([]byte, p.CtSize())
+	var upk pkePub
+	var usk pkePriv
+	if !catchRep(t, "C03/panic/"+im.name+"/encrypt", fmt.Sprintf("d %x m %x r %x", d, m, r), func() {
+		pk.EncryptTo(c1, m, r)
+		upk = im.unpackPK(ekIn)
+		usk = im.unpackSK(dkIn)
+		upk.EncryptTo(c2, m, r)
+	}) {
+		return
+	}
+	if !bytes.Equal(c1, wantC) || !bytes.Equal(c2, wantC) {
+		vlib.Report(t, "C03/pke-encrypt/"+im.name+"/"+keyForm, fmt.Sprintf("d %x m %x r %x (%s): ciphertext differs from the reference: generated-key path equal=%v, unpacked-key path equal=%v, first differing byte %d", d, m, r, flavour, bytes.Equal(c1, wantC), bytes.Equal(c2, wantC), firstDiff(c2, wantC)))
+		return
+	}
+	if keyForm != "reduced" {
+		vlib.NonTrivial(sub, "unreduced-key-coefficients", d, m, r, ekIn, dkIn)
+	}
+
+	kinds := append([]string{"honest"}, ctKinds...)
+	for i := 0; i < 3; i++ {
+		kind := "honest"
+		if i > 0 {
+			kind = rapid.SampledFrom(kinds[1:]).Draw(t, "ctkind")
+		}
+		c, desc := wantC, "honest"
+		if kind != "honest" {
+			c, desc = altCiphertext(t, p, kind, wantC, wantDk)
+		}
+		want := p.PKEDecrypt(dkIn, c)
+		g1 := make([]byte, 32)
+		g2 := make([]byte, 32)
+		if !catchRep(t, "C03/panic/"+im.name+"/decrypt", fmt.Sprintf("d %x ct %s", d, desc), func() {
+			sk.DecryptTo(g1, c)
+			usk.DecryptTo(g2, c)
+		}) {
+			return
+		}
+		if !bytes.Equal(g1, want) || !bytes.Equal(g2, want) {
+			vlib.Report(t, "C03/pke-decrypt/"+im.name+"/"+kindKey(kind), fmt.Sprintf("d %x (%s, %s) ct=%s (%s): DecryptTo gives %x (generated key) %x (unpacked key), reference %x", d, flavour, keyForm, desc, vlib.Hex(c), g1, g2, want))
+			return
+		}
+		if kind == "honest" {
+			if !bytes.Equal(want, m) {
+				// decryption failure of the scheme itself (probability < 2^-139): not a defect of circl
+				vlib.Class(sub, "scheme-decryption-failure")
+			}
+			continue
+		}
+		hits := boundaryHits(p, wantDk, c)
+		vlib.Class(sub, "ct="+kind)
+		vlib.Class(sub, hitClass(hits))
+		vlib.NonTrivial(sub, "decrypt-non-honest", d, c)
+		vlib.Sample(sub, "ct="+kind, fmt.Sprintf("%s d=%x ct: %s -> m'=%x (%d coefficients of v-s.u exactly on a rounding boundary)", im.name, d, desc, want, hits))
+	}
+}
+
+func kindKey(kind string) string {
+	if kind == "honest" {
+		return "honest"
+	}
+	return "non-honest"
+}
+
+// liftCoefficients adds q to some 12-bit coefficients of buf (a multiple of 384
+// bytes) whose value is < 4096-q, and returns how many were lifted.
+func liftCoefficients(t *rapid.T, buf []byte) int {
+	n := len(buf) / 384 * 256
+	count := rapid.SampledFrom([]int{1, 1, 2, 17, n}).Draw(t, "liftcount")
+	start := rapid.IntRange(0, n-1).Draw(t, "liftstart")
+	step := rapid.SampledFrom([]int{1, 2, 3, 7, 255}).Draw(t, "liftstep")
+	lifted := 0
+	for i := 0; i < count; i++ {
+		idx := (start + i*step) % n
+		v := getCoef(buf, idx)
+		if v < 4096-mlkem.Q {
+			setCoef(buf, idx, v+mlkem.Q)
+			lifted++
+		}
+	}
+	return lifted
+}
+
+func getCoef(buf []byte, idx int) int {
+	o := 3 * (idx / 2)
+	if idx%2 == 0 {
+		return int(buf[o]) | (int(buf[o+1])&0x0f)<<8
+	}
+	return int(buf[o+1])>>4 | int(buf[o+2])<<4
+}
+
+func setCoef(buf []byte, idx, v int) {
+	o := 3 * (idx / 2)
+	if idx%2 == 0 {
+		buf[o] = byte(v)
+		buf[o+1] = buf[o+1]&0xf0 | byte(v>>8)
+	} else {
+		buf[o+1] = buf[o+1]&0x0f | byte(v<<4)
+		buf[o+2] = byte(v >> 4)
+	}
+}
+
+// ---------------------------------------------------------------------------
+// key parsing
+
+func TestC03Parse(t *testing.T) {
+	defer vlib.Done()
+	if !selfTest(t) {
+		return
+	}
+	// getCoef/setCoef agree with the reference decoder
+	{
+		b := make([]byte, 384)
+		vlib.ExpandInto(b, 99)
+		f := mlkem.ByteDecodeRaw(12, b)
+		for i := 0; i < 256; i++ {
+			if getCoef(b, i) != f[i] {
+				t.Fatalf("SELFTEST-FAIL getCoef(%d)", i)
+			}
+		}
+		setCoef(b, 7, 4095)
+		setCoef(b, 8, 3329)
+		f = mlkem.ByteDecodeRaw(12, b)
+		if f[7] != 4095 || f[8] != 3329 {
+			t.Fatalf("SELFTEST-FAIL setCoef")
+		}
+	}
+	for _, im := range impls() {
+		im := im
+		t.Run(im.name, func(t *testing.T) {
+			vlib.Check(t, vlib.N(150, 600), func(t *rapid.T) { parseCase(t, im) })
+		})
+	}
+}
+
+// parse runs both parsing entry points on an encapsulation key and returns
+// whether each accepted, the re-encoding of the accepted key and the key.
+func parsePK(t vlib.TB, im impl, b []byte) (okScheme, okDirect bool, re []byte, pk kem.PublicKey, done bool) {
+	var e1, e2 error
+	var d pubKey
+	if !catchRep(t, "C03/panic/"+im.name+"/parse-ek", fmt.Sprintf("len %d", len(b)), func() {
+		pk, e1 = im.sch.UnmarshalBinaryPublicKey(b)
+		if len(b) == im.ref.EkSize() || im.mlkem { // the Kyber direct Unpack documents a panic on a wrong length
+			d, e2 = im.unpackPK(b)
+		} else {
+			e2 = fmt.Errorf("skipped")
+		}
+		if e1 == nil {
+			re, _ = pk.MarshalBinary()
+		}
+		if e2 == nil {
+			re2 := make([]byte, im.ref.EkSize())
+			d.Pack(re2)
+			if e1 == nil && !bytes.Equal(re, re2) {
+				re = nil // signalled below as a re-encoding difference
+			}
+		}
+	}) {
+		return false, false, nil, nil, true
+	}
+	return e1 == nil, e2 == nil, re, pk, false
+}
+
+func parseCase(t *rapid.T, im impl) {
+	p := im.ref
+	sub := "parse/" + im.name
+	seed := vlib.EdgeBytes(t, 64, "dz")
+	ek, dk := p.KeyGen(seed[:32], seed[32:])
+	vlib.Eval(sub)
+	k := p.K
+
+	kind := rapid.SampledFrom([]string{"ek-coef>=q", "ek-coef>=q", "ek-coef>=q", "ek-bitflip", "ek-random", "ek-length", "ek-wellformed-edge",
+		"dk-h-corrupt", "dk-h-corrupt", "dk-ek-corrupt", "dk-bitflip-any", "dk-pke-or-z-mutated", "dk-ek-unreduced-hash-fixed", "dk-length"}).Draw(t, "kind")
+	vlib.Class(sub, "kind="+kind)
+
+	switch kind {
+	case "ek-coef>=q", "ek-bitflip", "ek-random", "ek-length", "ek-wellformed-edge":
+		b := append([]byte{}, ek...)
+		desc := kind
+		switch kind {
+		case "ek-coef>=q":
+			n := rapid.SampledFrom([]int{1, 1, 1, 2, 5}).Draw(t, "ncoef")
+			for i := 0; i < n; i++ {
+				idx := rapid.IntRange(0, 256*k-1).Draw(t, "idx")
+				v := rapid.SampledFrom([]int{mlkem.Q, mlkem.Q + 1, 4095, 4094, 3584, 2048 + 1281, -1}).Draw(t, "val")
+				if v < 0 {
+					v = rapid.IntRange(mlkem.Q, 4095).Draw(t, "rval")
+				}
+				setCoef(b, idx, v)
+				desc += fmt.Sprintf(" [%d]=%d", idx, v)
+				vlib.Class(sub, fmt.Sprintf("bad-coef-parity=%d", idx%2))
+			}
+		case "ek-bitflip":
+			i := rapid.IntRange(0, 8*len(b)-1).Draw(t, "bit")
+			b[i/8] ^= 1 << uint(i%8)
+			desc += fmt.Sprintf("@%d", i)
+		case "ek-random":
+			vlib.FillRandom(t, b, "ek")
+		case "ek-length":
+			dl := rapid.SampledFrom([]int{-384, -33, -32, -1, 1, 32, 384}).Draw(t, "dlen")
+			if dl < 0 {
+				b = b[:len(b)+dl]
+			} else {
+				b = append(b, make([]byte, dl)...)
+			}
+			desc += fmt.Sprintf(" %+d", dl)
+		case "ek-wellformed-edge":
+			// every coefficient replaced by a value from {0, 1, q-1, q-2, ...}: still well-formed
+			rnd := make([]byte, 256*k)
+			vlib.FillRandom(t, rnd, "edge")
+			edge := []int{0, 1, mlkem.Q - 1, mlkem.Q - 2, 2048, 2047, 3072, 256, 255}
+			for i := 0; i < 256*k; i++ {
+				setCoef(b, i, edge[int(rnd[i])%len(edge)])
+			}
+		}
+		want := p.CheckEk(b)
+		okS, okD, re, pk, done := parsePK(t, im, b)
+		if done {
+			return
+		}
+		if im.mlkem {
+			if okS != want || okD != want {
+				cls := "malformed-accepted"
+				if want {
+					cls = "wellformed-refused"
+				}
+				vlib.Report(t, "C03/parse/"+im.name+"/ek-"+cls, fmt.Sprintf("seed %x %s: FIPS 203 §7.2 check says valid=%v, UnmarshalBinaryPublicKey accepted=%v, PublicKey.Unpack accepted=%v; ek=%s", seed, desc, want, okS, okD, vlib.Hex(b)))
+				return
+			}
+		} else if len(b) == p.EkSize() && (!okS || !okD) {
+			vlib.Report(t, "C03/parse/"+im.name+"/ek-refused", fmt.Sprintf("seed %x %s: round-3 Kyber has no key checks but parsing failed", seed, desc))
+			return
+		}
+		if want && okS {
+			if !bytes.Equal(re, b) {
+				vlib.Report(t, "C03/parse/"+im.name+"/ek-reencode", fmt.Sprintf("seed %x %s: accepted well-formed ek re-encodes differently", seed, desc))
+				return
+			}
+			// the parsed key is the function of its bytes that the specification defines
+			m := vlib.EdgeBytes(t, 32, "m")
+			wantK, wantC := p.Encaps(b, m)
+			ct, ss, _ := im.sch.EncapsulateDeterministically(pk, m)
+			if !bytes.Equal(ct, wantC) || !bytes.Equal(ss, wantK) {
+				vlib.Report(t, "C03/parse/"+im.name+"/ek-encaps-after-parse", fmt.Sprintf("seed %x %s m %x: encapsulation to the parsed key differs from the reference", seed, desc, m))
+				return
+			}
+			vlib.Class(sub, "ek-accepted")
+			if kind != "ek-bitflip" || !bytes.Equal(b[:384*k], ek[:384*k]) {
+				vlib.NonTrivial(sub, "ek-wellformed-variant", b)
+			}
+		}
+		if !want {
+			vlib.NonTrivial(sub, "ek-malformed", b)
+			vlib.Sample(sub, kind, fmt.Sprintf("%s seed=%x %s -> refused=%v", im.name, seed, desc, !okS))
+		}
+
+	default:
+		b := append([]byte{}, dk...)
+		desc := kind
+		pkeMut := false
+		switch kind {
+		case "dk-h-corrupt":
+			i := rapid.IntRange(0, 255).Draw(t, "hbit")
+			b[768*k+32+i/8] ^= 1 << uint(i%8)
+			desc += fmt.Sprintf(" bit %d", i)
+		case "dk-ek-corrupt":
+			i := rapid.IntRange(0, 8*(384*k+32)-1).Draw(t, "ekbit")
+			b[384*k+i/8] ^= 1 << uint(i%8)
+			desc += fmt.Sprintf(" bit %d", i)
+		case "dk-bitflip-any":
+			i := rapid.IntRange(0, 8*len(b)-1).Draw(t, "bit")
+			b[i/8] ^= 1 << uint(i%8)
+			desc += fmt.Sprintf("@%d", i)
+		case "dk-pke-or-z-mutated":
+			pkeMut = true
+			if rapid.Bool().Draw(t, "z") {
+				vlib.FillRandom(t, b[768*k+64:], "z")
+				desc += " z replaced"
+			} else {
+				// change one secret coefficient to another value < q
+				idx := rapid.IntRange(0, 256*k-1).Draw(t, "idx")
+				v := rapid.SampledFrom([]int{0, 1, mlkem.Q - 1, 1664, -1}).Draw(t, "val")
+				if v < 0 {
+					v = rapid.IntRange(0, mlkem.Q-1).Draw(t, "rval")
+				}
+				setCoef(b, idx, v)
+				desc += fmt.Sprintf(" s^[%d]=%d", idx, v)
+			}
+		case "dk-ek-unreduced-hash-fixed":
+			// embedded ek with unreduced coefficients and a matching hash: FIPS 203 §7.3 has
+			// only a length and a hash check, so this key is acceptable to Decaps
+			n := liftCoefficients(t, b[384*k:768*k])
+			copy(b[768*k+32:], mlkem.H(b[384*k:768*k+32]))
+			desc += fmt.Sprintf(" lifted=%d", n)
+		case "dk-length":
+			dl := rapid.SampledFrom([]int{-96, -32, -1, 1, 32}).Draw(t, "dlen")
+			if dl < 0 {
+				b = b[:len(b)+dl]
+			} else {
+				b = append(b, make([]byte, dl)...)
+			}
+			desc += fmt.Sprintf(" %+d", dl)
+		}
+		want := p.CheckDk(b)
+		var sk kem.PrivateKey
+		var e1, e2 error
+		var d privKey
+		var re []byte
+		if !catchRep(t, "C03/panic/"+im.name+"/parse-dk", desc, func() {
+			sk, e1 = im.sch.UnmarshalBinaryPrivateKey(b)
+			if len(b) == p.DkSize() || im.mlkem {
+				d, e2 = im.unpackSK(b)
+			}
+			if e1 == nil {
+				re, _ = sk.MarshalBinary()
+			}
+		}) {
+			return
+		}
+		if im.mlkem {
+			if (e1 == nil) != want || (e2 == nil) != want {
+				cls := "malformed-accepted"
+				if want {
+					cls = "wellformed-refused"
+				}
+				vlib.Report(t, "C03/parse/"+im.name+"/dk-"+cls, fmt.Sprintf("seed %x %s: FIPS 203 §7.3 check says valid=%v, UnmarshalBinaryPrivateKey err=%v, PrivateKey.Unpack err=%v", seed, desc, want, e1, e2))
+				return
+			}
+		} else if len(b) == p.DkSize() && (e1 != nil || e2 != nil) {
+			vlib.Report(t, "C03/parse/"+im.name+"/dk-refused", fmt.Sprintf("seed %x %s: round-3 Kyber has no key checks but parsing failed: %v %v", seed, desc, e1, e2))
+			return
+		}
+		if !want {
+			vlib.NonTrivial(sub, "dk-malformed", b)
+			vlib.Sample(sub, kind, fmt.Sprintf("%s seed=%x %s -> err=%v", im.name, seed, desc, e1))
+		}
+		if len(b) != p.DkSize() || e1 != nil || e2 != nil {
+			return
+		}
+		// accepted: all 12-bit coefficients reduced => re-encodes identically
+		reduced := true
+		for i := 0; i < 2*k && reduced; i++ {
+			off := 384 * i
+			if i >= k {
+				off = 384*k + 384*(i-k)
+			}
+			part := b[off : off+384]
+			if !bytes.Equal(mlkem.ByteEncode(12, mlkem.ByteDecode(12, part)), part) {
+				reduced = false
+			}
+		}
+		if reduced && !bytes.Equal(re, b) {
+			vlib.Report(t, "C03/parse/"+im.name+"/dk-reencode", fmt.Sprintf("seed %x %s: accepted well-formed dk re-encodes differently (first differing byte %d)", seed, desc, firstDiff(re, b)))
+			return
+		}
+		// and decapsulates as the specification says for these bytes
+		m := vlib.EdgeBytes(t, 32, "m")
+		_, c := p.Encaps(b[384*k:768*k+32], m) // to the embedded encapsulation key
+		if rapid.Bool().Draw(t, "flipct") {
+			i := rapid.IntRange(0, 8*len(c)-1).Draw(t, "ctbit")
+			c[i/8] ^= 1 << uint(i%8)
+		}
+		wantK := p.Decaps(b, c)
+		g1, _ := im.sch.Decapsulate(sk, c)
+		g2 := make([]byte, 32)
+		d.DecapsulateTo(g2, c)
+		if !bytes.Equal(g1, wantK) || !bytes.Equal(g2, wantK) {
+			vlib.Report(t, "C03/parse/"+im.name+"/dk-decaps-after-parse", fmt.Sprintf("seed %x %s m %x: decapsulation with the parsed key gives %x / %x, reference %x", seed, desc, m, g1, g2, wantK))
+			return
+		}
+		vlib.Class(sub, "dk-accepted")
+		if !bytes.Equal(b, dk) {
+			cls := "dk-accepted-variant"
+			if pkeMut {
+				cls = "dk-pke-or-z-mutated-decaps"
+			}
+			vlib.NonTrivial(sub, cls, b, c)
+		}
+	}
 }
